@@ -77,6 +77,7 @@ class Agent:
         self.tamper: Optional[Callable[[Pdu, Pdu], Pdu]] = None
         self.error: Optional[Tuple[int, int]] = None  # scripted (status, index)
         self.rid_offset = 0
+        self.flags: set = set()   # run-signature facts (see known_findings.json)
         self.reply_version: Optional[int] = None
         self.reply_community: Optional[bytes] = None
         self.response_form = 0
@@ -123,6 +124,12 @@ class Agent:
                 out.append((oid, EOMV))
             else:
                 out.append(nxt)
+        seen_eomv = False
+        for _, v in out:
+            if v == EOMV:
+                seen_eomv = True
+            elif seen_eomv:
+                self.flags.add("getnext:eomv-before-live")
         return Pdu(ber.P_RESPONSE, rid, 0, 0, out)
 
     def _bulk(self, req: Pdu, rid: int) -> Pdu:
@@ -158,6 +165,17 @@ class Agent:
             rows[-1] = rows[-1][:j]
         for row in rows:
             out.extend(row)
+        if r >= 2:
+            reps = out[n:]
+            oids = [o for o, _ in reps]
+            if len(set(oids)) != len(oids):
+                self.flags.add("bulk:duplicate-oid")
+            seen_eomv = False
+            for _, v in reps:
+                if v == EOMV:
+                    seen_eomv = True
+                elif seen_eomv:
+                    self.flags.add("bulk:eomv-before-live")
         return Pdu(ber.P_RESPONSE, rid, 0, 0, out)
 
     def _set(self, req: Pdu, rid: int) -> Pdu:
